@@ -12,9 +12,9 @@ use serde::{Deserialize, Serialize};
 
 #[derive(Clone, Debug, Serialize, Deserialize)]
 pub enum Case {
-    Gen { data: Recipe, cfg: Config, sched: Schedule, driver: Driver },
+    Gen { data: Recipe, cfg: Config, sched: Schedule, driver: Driver, set_level: Option<u8> },
     /// metamorphic: incompressible X repeated twice must compress well when matching is enabled
-    Twice { n: u32, seed: u64, level: u8, strategy: u8, zlib: bool },
+    Twice { n: u32, seed: u64, level: u8, strategy: u8, zlib: bool, created_at: Option<u8> },
     /// a long run must compress under the run-length strategy
     Run { n: u32, byte: u8, level: u8, zlib: bool },
 }
@@ -60,23 +60,33 @@ impl Prop for P {
             Tier::Thorough => prop_oneof![6 => recipe(3000, 5), 3 => recipe(60_000, 4), 1 => recipe(1_000_000, 3)].boxed(),
         };
         let driver = prop_oneof![Just(Driver::Buf), Just(Driver::Callback), Just(Driver::Stream)];
-        let g = (data, config(), schedule(5), driver).prop_map(|(data, cfg, sched, driver)| Case::Gen { data, cfg, sched, driver });
-        let tw = (200u32..=24_000, any::<u64>(), 1u8..=10, proptest::sample::select(vec![0u8, 1, 4]), any::<bool>()).prop_map(|(n, seed, level, strategy, zlib)| {
+        let g = (data, config(), schedule(5), driver, proptest::option::weighted(0.15, 0u8..=10)).prop_map(|(data, cfg, sched, driver, set_level)| Case::Gen { data, cfg, sched, driver, set_level });
+        let tw = (200u32..=24_000, any::<u64>(), 1u8..=10, proptest::sample::select(vec![0u8, 1, 4]), any::<bool>(), proptest::option::weighted(0.3, 0u8..=10)).prop_map(|(n, seed, level, strategy, zlib, created_at)| {
             let n = if level == 1 { 200 + n % 1301 } else { n };
-            Case::Twice { n, seed, level, strategy, zlib }
+            Case::Twice { n, seed, level, strategy, zlib, created_at }
         });
         let run = (1000u32..=100_000, any::<u8>(), 1u8..=10, any::<bool>()).prop_map(|(n, byte, level, zlib)| Case::Run { n, byte, level, zlib });
         prop_oneof![16 => g, 3 => tw, 1 => run].boxed()
     }
     fn check(case: &Case, cx: &mut Ctx) -> Check {
         match case {
-            Case::Gen { data, cfg, sched, driver } => check_gen(data, cfg, sched, *driver, cx),
-            Case::Twice { n, seed, level, strategy, zlib } => {
+            Case::Gen { data, cfg, sched, driver, set_level } => check_gen(data, cfg, sched, *driver, *set_level, cx),
+            Case::Twice { n, seed, level, strategy, zlib, created_at } => {
                 let mut x = Vec::new();
                 Seg::Random { n: *n, seed: *seed }.append(&mut x);
                 let xx = [x.clone(), x].concat();
-                let cfg = Config { ctor: Ctor::Flags, level: *level as i32, strategy: *strategy as i32, zlib: *zlib, wbits: 15 };
-                let mut c = cfg.make();
+                // either created at the level, or created at another level and switched with
+                // set_compression_level_raw before any data (which resets the strategy to Default)
+                let (mut c, strategy) = match created_at {
+                    None => (Config { ctor: Ctor::Flags, level: *level as i32, strategy: *strategy as i32, zlib: *zlib, wbits: 15 }.make(), *strategy),
+                    Some(l0) => {
+                        let mut c = Config { ctor: Ctor::Flags, level: *l0 as i32, strategy: *strategy as i32, zlib: *zlib, wbits: 15 }.make();
+                        c.set_compression_level_raw(*level);
+                        cx.class("twice:level-set-after-construction");
+                        (c, 0u8)
+                    }
+                };
+                let strategy = &strategy;
                 let run = drive_compress(&mut c, &xx, &Schedule { steps: vec![], finish_out: vec![1 << 20] }, Driver::Buf)?;
                 cx.nontrivial();
                 cx.class(&format!("twice:level{:02}:strategy{}", level, strategy));
@@ -98,9 +108,16 @@ impl Prop for P {
     }
 }
 
-fn check_gen(data: &Recipe, cfg: &Config, sched: &Schedule, driver: Driver, cx: &mut Ctx) -> Check {
+fn check_gen(data: &Recipe, cfg: &Config, sched: &Schedule, driver: Driver, set_level: Option<u8>, cx: &mut Ctx) -> Check {
     let x = data.expand();
     let mut c = cfg.make();
+    // level switched before any data (only for constructors with the full window: with a smaller
+    // window the call is documented to be refused for higher levels)
+    let set_level = if cfg.ctor == Ctor::Params { None } else { set_level };
+    if let Some(l) = set_level {
+        c.set_compression_level_raw(l);
+        cx.class("gen:level-set-after-construction");
+    }
     let run = drive_compress(&mut c, &x, sched, driver)?;
     let zl = cfg.is_zlib();
     let r = ref_inflate(&run.out, &Opts::fmt(zl).tokens());
@@ -114,7 +131,10 @@ fn check_gen(data: &Recipe, cfg: &Config, sched: &Schedule, driver: Driver, cx: 
             cx.class("oracle_disagreement:zlib-rejects-what-reference-accepts");
         }
     }
-    let (level, strategy) = effective_mode(cfg);
+    let (level, strategy) = match set_level {
+        Some(l) => (l.min(10) as i32, 0),
+        None => effective_mode(cfg),
+    };
     let mut n_match = 0usize;
     let mut min_len = u16::MAX;
     let mut max_dist = 0u32;
